@@ -583,3 +583,11 @@ func asSuffixErr(err error) *pointerSuffixError {
 //@ func (Pointer).Parent
 //@ property C16 C20
 //@ ensures len(result) <= len(p)
+
+// The exported wrapper, as seen by the thin contracts of the arshal layer: PeekKind
+// fills the buffer and the peek cache; it does not touch the decoder's options.
+// (decoderState.PeekKind is proved against the coarser frame `everything`.)
+//
+//@ func (*Decoder).PeekKind
+//@ trusted NOT PROVED at this level: frame of Decoder.PeekKind (buffer, peek cache, offsets, lazily copied names)
+//@ modifies d.s.decodeBuffer.peekPos, d.s.decodeBuffer.peekErr, d.s.decodeBuffer.buf, d.s.decodeBuffer.buf[:cap(d.s.decodeBuffer.buf)], d.s.decodeBuffer.prevStart, d.s.decodeBuffer.prevEnd, d.s.decodeBuffer.baseOffset, d.s.state.Names.offsets[:], d.s.state.Names.unquotedNames, d.s.state.Names.unquotedNames[:cap(d.s.state.Names.unquotedNames)]
